@@ -5,6 +5,8 @@
 
 package serf
 
+import "time"
+
 // This file only exists under the `verif` build tag. It exposes constructors
 // for the unexported event coalescers so that an external runtime monitor can
 // drive them with exact control over the flush points.
@@ -31,4 +33,11 @@ func VerifNewUserCoalescer() VerifCoalescer {
 	return &userEventCoalescer{
 		events: make(map[string]*latestUserEvents),
 	}
+}
+
+// VerifCoalescedEventCh starts the real coalescing loop (the one Create uses)
+// around the given coalescer and returns its input channel.
+func VerifCoalescedEventCh(outCh chan<- Event, shutdownCh <-chan struct{},
+	cPeriod, qPeriod time.Duration, c VerifCoalescer) chan<- Event {
+	return coalescedEventCh(outCh, shutdownCh, cPeriod, qPeriod, c)
 }
